@@ -41,6 +41,20 @@ def sig_kwonly(a, *, k=1, m=None):
     return {"a": a, "k": k, "m": m}
 
 
+def _make_scaled(name, factor_default, unit_default):
+    """task factory: the functions it returns share ONE code object and differ only in their defaults"""
+    def scaled(a, factor=factor_default, *, unit=unit_default):
+        RECEIVED.append({"a": a, "factor": factor, "unit": unit})
+        return [a, factor, unit]
+    scaled.__name__ = scaled.__qualname__ = name
+    return scaled
+
+
+sig_scaled_cm = _make_scaled("sig_scaled_cm", 2, "cm")
+sig_scaled_in = _make_scaled("sig_scaled_in", 3, "in")
+sig_scaled_pt = _make_scaled("sig_scaled_pt", 72, "pt")
+
+
 def echo_value(v, pad=None):
     RECEIVED.append({"v": v, "pad": pad})
     return v
